@@ -81,7 +81,7 @@ def nest(Qo, Qi, q, construct):
     o = P.Table("ot")
     if construct == "top":
         return q
-    if type(q).__name__ == "_SetOperation" and construct in ("setop-base", "setop-operand", "create-as", "subquery-select", "subquery-join", "function-arg", "function-arg-orderby", "cmp-operand", "case-result"):
+    if type(q).__name__ == "_SetOperation" and construct in ("setop-base", "setop-operand", "setop-base-ordered", "create-as", "subquery-select", "subquery-join", "function-arg", "function-arg-orderby", "cmp-operand", "case-result"):
         return None  # a set operation is nested as a FROM / IN / CTE subquery only
     if construct == "subquery-from":
         return Qo.from_(q.as_("sq")).select("a")
@@ -110,6 +110,9 @@ def nest(Qo, Qi, q, construct):
         return q.union(other)
     if construct == "setop-operand":
         return other.union(q)
+    if construct == "setop-base-ordered":
+        # the set operation's OWN tail (its ORDER BY belongs to the statement being rendered, whichever class built the base query)
+        return q.union(other).orderby(P.Field("a"), P.Field("my col"))
     if construct == "insert-select":
         return None  # assembled on one builder; handled by the caller
     if construct == "create-as":
@@ -131,11 +134,14 @@ def build(Qo, Qi, elem, nesting, cache=None):
         if last and cache is not None and "inner" not in cache:
             cache["inner"] = q
         Qc = Qo if last else Qi
-        if c == "insert-select":
-            if k != 0 or not hasattr(q, "into"):
+        if c in ("insert-select", "insert-select-aliased-target"):
+            # the statement so far becomes the row source of an INSERT (outermost position only): INSERT INTO ins [alias] (a) SELECT a FROM (<q>) isq
+            if not last or type(q).__name__ == "_SetOperation":
                 return None
-            q = q.into(__import__("pypika_tortoise").Table("ins")) if False else None
-            return None
+            import pypika_tortoise as P
+            tgt = P.Table("ins").as_("insa") if c.endswith("aliased-target") else P.Table("ins")
+            q = Qc.into(tgt).columns("a").from_(q.as_("isq")).select("a")
+            continue
         q = nest(Qc, Qi, q, c)
         if q is None:
             return None
@@ -163,8 +169,8 @@ def run(tier: str) -> int:
     qc = core.query_classes()
     events, meta = [], []
     for p in progs:
-        if "insert-select" in p["nest"] or ("create-as" in p["nest"][:-1]) or ("top" in p["nest"] and len(p["nest"]) > 1):
-            continue
+        if any(c.startswith("insert-select") for c in p["nest"][:-1]) or ("create-as" in p["nest"][:-1]) or ("top" in p["nest"] and len(p["nest"]) > 1):
+            continue  # (an INSERT / CREATE is a statement, not something to embed further)
         if tier == "quick" and len(p["nest"]) == 2 and p["nest"][0] in ("subquery-join", "subquery-select", "create-as") and p["nest"][1] in ("subquery-join", "create-as"):
             continue
         rs = []
